@@ -25,7 +25,10 @@ type c10Case struct {
 }
 
 func drawPlan(t *rapid.T, sampleBytes int) (string, []int) {
-	kind := rapid.SampledFrom([]string{"all-1", "prime", "random", "straddle", "one-short"}).Draw(t, "plankind")
+	kind := rapid.SampledFrom([]string{"all-1", "prime", "random", "straddle", "one-short", "pow2-remainder"}).Draw(t, "plankind")
+	if v := os.Getenv("VERIF_PLAN"); v != "" {
+		kind = v
+	}
 	switch kind {
 	case "all-1":
 		return kind, []int{1}
@@ -38,6 +41,14 @@ func drawPlan(t *rapid.T, sampleBytes int) (string, []int) {
 			p[i] = rapid.IntRange(1, sampleBytes+7).Draw(t, "chunk")
 		}
 		return kind, p
+	case "pow2-remainder": // first a read that leaves n - j*2^p - r bytes filled (r < 600): what remains is "a few buffers plus a small tail"; then full reads
+		p := rapid.IntRange(9, 16).Draw(t, "p")
+		j := rapid.IntRange(1, max(1, sampleBytes>>uint(p))).Draw(t, "j")
+		first := sampleBytes - j<<uint(p) - rapid.IntRange(0, 600).Draw(t, "r")
+		if first < 1 {
+			first = 1 + rapid.IntRange(0, 600).Draw(t, "r2")
+		}
+		return kind, []int{first, 1 << 30}
 	case "straddle": // chunks of sampleBytes-1 / sampleBytes+1: every read boundary drifts across the sample boundary
 		return kind, []int{sampleBytes + rapid.SampledFrom([]int{-1, 1, -7, 13}).Draw(t, "drift")}
 	default: // full reads except one short read per cycle
